@@ -91,6 +91,33 @@ pub fn run(args: &Args) {
             }
         }
 
+        // path 2b: an edit at the top-left of ANOTHER sheet that none of the formula's references points to (references into
+        // other workbooks, [1]Data2!A1, do not point to the local sheet of that name)
+        if !wide {
+            let mut v = vec![];
+            refs_of(&ast, &mut v);
+            if !v.iter().any(|r| r.sheet.as_deref() == Some("Data2")) {
+                o.observations += 1;
+                o.count("path.identity-edit-on-unreferenced-sheet", 1);
+                let got = guard(|| {
+                    let mut book = crate::gen::new_book(&sheets);
+                    book.get_sheet_mut(&0).unwrap().get_cell_mut((c0, r0)).set_formula(text.clone());
+                    match rng.below(4) {
+                        0 => book.insert_new_row("Data2", &1, &2),
+                        1 => book.insert_new_column_by_index("Data2", &1, &1),
+                        2 => book.remove_row("Data2", &1, &1),
+                        _ => book.remove_column_by_index("Data2", &2, &1),
+                    }
+                    book.get_sheet(&0).unwrap().get_cell((c0, r0)).map(|c| c.get_formula().to_string())
+                });
+                match &got {
+                    Ok(Some(g)) if norm(g) == norm(&text) => {}
+                    Ok(g) => o.div("identity:edit-on-unreferenced-sheet", format!("formula {:?} came back as {:?} after an edit of sheet Data2; features {:?}", text, g, feats)),
+                    Err(e) => o.div(format!("identity:edit-on-unreferenced-sheet:panic:{}", panic_site(e)), format!("formula {:?}: {}", text, e)),
+                }
+            }
+        }
+
         // path 3: translation by (dc, dr). External references ([1]Sheet1!A1) are references too and do move when
         // relative; the generator models them as opaque text, so they are only exercised on the identity paths.
         let translations = if feats.contains("external-ref") { 0 } else { 2 };
